@@ -8,27 +8,9 @@ the handler's methods write only its time state; the queue is written by `Add` a
 -/
 namespace Ntrip.Guards
 
-theorem decoders_pure :
-    Gen.recv_writes_header = some [] ∧
-    Gen.recv_writes_t1005 = some [] ∧
-    Gen.recv_writes_t1006 = some [] ∧
-    Gen.recv_writes_sat4 = some [] ∧
-    Gen.recv_writes_sig4 = some [] ∧
-    Gen.recv_writes_msg4 = some [] ∧
-    Gen.recv_writes_sat7 = some [] ∧
-    Gen.recv_writes_sig7 = some [] ∧
-    Gen.recv_writes_msg7 = some [] := by
-  repeat' constructor
-  all_goals decide
-
 theorem handler_state :
     Gen.recv_writes_handler = some ["Handler.getUTCFromBeidouTime: rtcmHandler.startOfBeidouWeek =", "Handler.getUTCFromBeidouTime: rtcmHandler.timestampFromPreviousBeidouMessage =", "Handler.getUTCFromGPSTime: rtcmHandler.startOfGPSWeek =", "Handler.getUTCFromGPSTime: rtcmHandler.timestampFromPreviousGPSMessage =", "Handler.getUTCFromGalileoTime: rtcmHandler.startOfGalileoWeek =", "Handler.getUTCFromGalileoTime: rtcmHandler.timestampFromPreviousGalileoMessage =", "Handler.getUTCFromGlonassTime: rtcmHandler.startOfGlonassWeek =", "Handler.getUTCFromGlonassTime: rtcmHandler.glonassDayFromPreviousMessage ="] ∧
     Gen.recv_writes_pushback = some ["ByteChannel.GetNextByte: bc.pushBackBuffer =", "ByteChannel.PushBack: bc.pushBackBuffer =", "ByteChannel.PushBack: bc.pushBackBuffer ="] := by
-  repeat' constructor
-  all_goals decide
-
-theorem queue_writers :
-    Gen.recv_writes_cq = some ["CircularQueue.Add: delete(cb.Items)", "CircularQueue.Add: cb.Items[cb.NextIndex] =", "CircularQueue.Add: cb.NextIndex++"] := by
   repeat' constructor
   all_goals decide
 
